@@ -174,8 +174,8 @@ def guardOK (k : Kind) (cs : List Const) (cur : Name → Option Int) : Bool :=
 
 /-- what the compiler says about one guard line `_ = x[Name-valueof]` (x a `[1]struct{}`): the index is a
     constant expression of type T, so first of all it must be representable in T (`Name - 5 (constant -5 of
-    type T) overflows uint8`), then not negative (`must not be negative`), then below 1 (`index 2 out of
-    bounds [0:1]`) -/
+    type T) overflows uint8`), then not negative (`must not be negative`), then — an index — representable as an
+    `int` (`overflows int`; uint64 / uint differences above MaxInt64), then below 1 (`index 2 out of bounds [0:1]`) -/
 inductive GuardErr where
   | none | undefined | overflows | negative | bounds
   deriving DecidableEq, Repr
@@ -185,7 +185,8 @@ def guardLine (k : Kind) (printedV : Int) (cur : Option Int) : GuardErr :=
   | .none => .undefined
   | some v =>
     let d := v - printedV
-    if !k.has d then .overflows else if d < 0 then .negative else if d = 0 then .none else .bounds
+    if !k.has d then .overflows else if d < 0 then .negative else if d = 0 then .none
+    else if d > 9223372036854775807 then .overflows else .bounds
 
 /-- the first complaint in the guard function, in table (= source) order -/
 def guardFirst (k : Kind) (cs : List Const) (cur : Name → Option Int) : GuardErr :=
